@@ -2,7 +2,7 @@
 Inbound: seeded overload sets (1-4 signatures of equal arity from a catalogue of 58 one-parameter forms - value, const&, &, *, const*,
 shared_ptr, shared_ptr<const> over int/double/bool/string/Base/Derived/Other, other arithmetic types, Boxed_Value, Boxed_Number, std::function,
 vector - and 12 two-parameter signatures) registered under one name in a seeded order; every logging function records which overload was
-entered, what it received and at which address. Calls use argument tuples from 33 script value kinds (literals, variables, const/non-const
+entered, what it received and at which address. Calls use argument tuples from 34 script value kinds (literals, variables, const/non-const
 C++ objects shared by reference / pointer / shared_ptr, script-created objects, return values, functions, Dynamic_Objects, undefined,
 vectors). Trace specification over the entry log: at most one entry per call, exactly one when the call returns, none when it fails; the
 entered overload must be admissible (MUST/MAY/NEVER table from the documented conversions); an error is wrong when a MUST overload exists;
